@@ -605,3 +605,16 @@ Print Assumptions RunExample.report_only_by_theorem.
 Print Assumptions RunExample.delete_by_theorem.
 Print Assumptions RunExample.count_uniform_applies.
 Print Assumptions RunExample.same_id_reported_by_other_file.
+
+(* ---------- Clean touches files only: the directories of the sandbox, the registries, the counters and the skip list of the
+   state are what they were - in every mode (a directory is never removed, not even an empty one that a call addressed) ---------- *)
+Lemma clean_run_only_fs s sort_opt count :
+  exists fs', fst (clean_run s sort_opt count) = set_fs s fs'.
+Proof.
+  unfold clean_run.
+  match goal with |- context [fold_left ?f ?l ?a] => destruct (fold_left f l a) as [[fs2 obs] w2] end.
+  now exists fs2.
+Qed.
+
+Lemma clean_run_dirs s sort_opt count : s_dirs (fst (clean_run s sort_opt count)) = s_dirs s.
+Proof. destruct (clean_run_only_fs s sort_opt count) as [fs' ->]. reflexivity. Qed.
